@@ -112,6 +112,78 @@ Result(op, a, b, s, dims) ==
     [] op = "Reset"              -> Zeros(IF dims[2] < 0 THEN dims[1] ELSE dims[1] * dims[2])
     [] op = "SetIdentity"        -> Ident(dims[1], dims[2])
 
+(***************************************************************************)
+(* IEEE classes (C09, special operands).  An extended element is a triple  *)
+(* <<v, d, f>>: f = 0 finite integer v, 1 = +Inf, 2 = -Inf, 3 = NaN,       *)
+(* 4 = negative zero (v = 0; only as an OPERAND: the sign of a computed    *)
+(* zero is not tracked, it matters only to a division by that zero).       *)
+(* 5 = "any": unconstrained by IEEE arithmetic alone (only generic =       *)
+(* concrete is demanded).  The derivative of an extended element is not    *)
+(* specified (d = 0).  The operators give the class Go's IEEE arithmetic   *)
+(* produces; absent entries of sparse containers are zeros.                *)
+(***************************************************************************)
+SSignOf(x) == IF x < 0 THEN -1 ELSE IF x > 0 THEN 1 ELSE 0
+XFin(v)   == <<v, 0, 0>>
+XInf      == <<0, 0, 1>>
+XNInf     == <<0, 0, 2>>
+XNaN      == <<0, 0, 3>>
+XNZero    == <<0, 0, 4>>
+XAny      == <<0, 0, 5>>
+XIsFin(x) == x[3] \in {0, 4}
+XIsNaN(x) == x[3] = 3
+XIsInf(x) == x[3] \in {1, 2}
+\* sign of an extended element: -1, 0, 1 (NaN excluded by the callers); a negative zero has sign 0
+XSgn(x)   == CASE x[3] = 1 -> 1 [] x[3] = 2 -> -1 [] x[3] = 4 -> 0 [] OTHER -> SSignOf(x[1])
+XOfSign(s) == IF s > 0 THEN XInf ELSE XNInf
+XNeg(x)   == CASE x[3] = 1 -> XNInf [] x[3] = 2 -> XInf [] x[3] = 3 -> XNaN [] OTHER -> XFin(-x[1])
+XAbs(x)   == CASE x[3] \in {1, 2} -> XInf [] x[3] = 3 -> XNaN [] OTHER -> XFin(IF x[1] < 0 THEN -x[1] ELSE x[1])
+XAdd(x, y) ==
+  IF XIsNaN(x) \/ XIsNaN(y) THEN XNaN
+  ELSE IF XIsInf(x) /\ XIsInf(y) THEN (IF x[3] = y[3] THEN x ELSE XNaN)      \* Inf + -Inf = NaN
+  ELSE IF XIsInf(x) THEN x
+  ELSE IF XIsInf(y) THEN y
+  ELSE XFin(x[1] + y[1])
+XSub(x, y) == XAdd(x, XNeg(y))
+XMul(x, y) ==
+  IF XIsNaN(x) \/ XIsNaN(y) THEN XNaN
+  ELSE IF XIsInf(x) \/ XIsInf(y)
+       THEN (IF XSgn(x) = 0 \/ XSgn(y) = 0 THEN XNaN ELSE XOfSign(XSgn(x) * XSgn(y)))   \* 0 * Inf = NaN
+  ELSE XFin(x[1] * y[1])
+XDiv(x, y) ==
+  IF XIsNaN(x) \/ XIsNaN(y) THEN XNaN
+  ELSE IF XIsInf(x) /\ XIsInf(y) THEN XNaN
+  ELSE IF XIsInf(x) THEN XOfSign(XSgn(x) * (IF y[3] = 4 \/ (y[3] = 0 /\ y[1] < 0) THEN -1 ELSE 1))
+  ELSE IF XIsInf(y) THEN XFin(0)
+  ELSE IF y[1] = 0                                                   \* finite / zero: the sign of the zero counts
+       THEN (IF x[1] = 0 THEN XNaN ELSE XOfSign(SSignOf(x[1]) * (IF y[3] = 4 THEN -1 ELSE 1)))
+  ELSE XFin(Quot(x[1], y[1]))
+RECURSIVE XSum(_)
+XSum(s) == IF Len(s) = 0 THEN XFin(0) ELSE XAdd(Head(s), XSum(Tail(s)))
+\* comparisons as Go's <, > do: false as soon as a NaN is involved
+XLess(x, y) ==
+  IF XIsNaN(x) \/ XIsNaN(y) THEN FALSE
+  ELSE IF x[3] = 2 THEN y[3] # 2
+  ELSE IF y[3] = 1 THEN x[3] # 1
+  ELSE IF x[3] = 1 \/ y[3] = 2 THEN FALSE
+  ELSE x[1] < y[1]
+
+XResult(op, a, b, s, dims) ==
+  CASE op \in {"VaddV", "MaddM"} -> SeqOf(Len(a), LAMBDA i : XAdd(a[i], b[i]))
+    [] op \in {"VsubV", "MsubM"} -> SeqOf(Len(a), LAMBDA i : XSub(a[i], b[i]))
+    [] op \in {"VmulV", "MmulM"} -> SeqOf(Len(a), LAMBDA i : XMul(a[i], b[i]))
+    [] op \in {"VdivV", "MdivM"} -> SeqOf(Len(a), LAMBDA i : XDiv(a[i], b[i]))
+    [] op \in {"VaddS", "MaddS"} -> SeqOf(Len(a), LAMBDA i : XAdd(a[i], s))
+    [] op \in {"VsubS", "MsubS"} -> SeqOf(Len(a), LAMBDA i : XSub(a[i], s))
+    [] op \in {"VmulS", "MmulS"} -> SeqOf(Len(a), LAMBDA i : XMul(a[i], s))
+    [] op \in {"VdivS", "MdivS"} -> SeqOf(Len(a), LAMBDA i : XDiv(a[i], s))
+    [] op = "VdotV" -> <<XSum(SeqOf(Len(a), LAMBDA i : XMul(a[i], b[i])))>>
+    [] op = "MdotV" -> SeqOf(dims[1], LAMBDA i : XSum(SeqOf(dims[3], LAMBDA j : XMul(At(a, dims[3], i, j), b[j]))))
+    [] op = "VdotM" -> SeqOf(dims[1], LAMBDA j : XSum(SeqOf(dims[3], LAMBDA i : XMul(a[i], At(b, dims[1], i, j)))))
+    [] op = "MdotM" -> SeqOf(dims[1] * dims[2], LAMBDA x :
+                          XSum(SeqOf(dims[3], LAMBDA t : XMul(At(a, dims[3], RowOf(x, dims[2]), t), At(b, dims[2], t, ColOf(x, dims[2]))))))
+    [] op = "Outer" -> SeqOf(Len(a) * Len(b), LAMBDA x : XMul(a[RowOf(x, Len(b))], b[ColOf(x, Len(b))]))
+    [] op = "Set"   -> a
+
 (* ---- scalar ring operations (C09; value only, exact) ------------------ *)
 SAbs(x)    == IF x < 0 THEN -x ELSE x
 SMin(x, y) == IF x < y THEN x ELSE y
